@@ -1,7 +1,7 @@
 """C03 — file, mmap and in-memory-buffer reading are observationally equivalent."""
 from e2 import E2
 FILES = ['src/reader/page_reader.c', 'src/reader/batch_reader.c', 'src/reader/mmap_reader.c', 'src/reader/file_reader.c']
-BUDGET = {'quick': 1200, 'thorough': 3600}
+BUDGET = {'quick': 840, 'thorough': 3600}
 H = 'harness/e2/c02_hist.c'
 STUBS = ['stdio and open/fstat/mmap/munmap over ONE in-memory model file system (same bytes for the three open paths)', 'cpuid: no SIMD features (scalar dispatch)',
          'file content produced in the same run by the real writer', 'OpenMP pragmas: sequential schedule of the _OPENMP-enabled code']
@@ -21,4 +21,8 @@ def obligations(tier):
             o.append(E2('three-modes/column/%s/%s' % (TYPES[ct].replace(' ', '-'), cn), H,
                         defines=['-DMODE=3', '-DCOLTYPE=%d' % ct, '-DN=9', '-DBATCH=3', '-DCODEC=' + cd], all_lib=True, timeout=1100, stubs=STUBS, fork_max=16,
                         bounds='same file, %s; metadata + column-reader content with symbolic read size 1..10, verify_checksums on/off, in all three I/O modes; batch data dereferenced after further reads (lifetime)' % cn))
+    for ct in ([1, 0] if q else [1, 0, 2]):
+        o.append(E2('three-modes/batch-uneven-pages/%s' % TYPES[ct].replace(' ', '-'), H,
+                    defines=['-DMODE=2', '-DCOLTYPE=%d' % ct, '-DOPENMODE=3', '-DN=9', '-DPAGEPATTERN=1,2,3,2,1'], all_lib=True, timeout=1100, stubs=STUBS, fork_max=16,
+                    bounds='2 columns (%s + INT32 REQUIRED), 9 rows in pages of 1,2,3,2,1 rows, uncompressed (zero-copy eligible); batch_size 1..10 symbolic x 3 projections; buffer, stdio and mmap in one path' % TYPES[ct]))
     return o
